@@ -267,6 +267,12 @@ def check(run: Run) -> None:
                 raise AnalysisError("model-mismatch", e)
         c05.removal_tables(run, "C04.i", keep={"VALIDATE", "PREPARE", "KEYSET"})
 
+    with run.obligation("C04.l", "K1", "insertion tables of TSS/TSD insert_key / insert_key_move projected onto what decides a key's visibility and time stamps: time validated, "
+                        "window rolled, the dictionary's key-set endpoint stamped, and the value-published bit (the bit that makes a dictionary child visible to every "
+                        "consumer) set when a slot removed in this cycle is revived or a new key's child already has a value (C05.k shared; added/removed bits are C05's)"):
+        from . import c05 as c05_
+        c05_.insertion_tables(run, "C04.l", keep={"VALIDATE", "PREPARE", "PUBLISH", "KEYSET"})
+
     with run.obligation("C04.k", "K11", "a forwarding output that loses or changes its target reads as modified in that cycle (its value changed): record_target_modified is "
                         "guarded by whether a target WAS bound, a fact snapshotted BEFORE the (un)bind call - read afterwards it is always false and the change is silent"):
         OB = "src/hgraph/types/time_series/ts_output/base_view.cpp"
@@ -311,6 +317,8 @@ def check(run: Run) -> None:
 
 
 VARIANTS = [
+    {"id": "l-seed-C04-5-revived-slot-not-republished", "expect": "C04.l", "edits": [{"file": "src/hgraph/types/metadata/ts_data_slot_ops.cpp", "find": "                if (slot_removed(result.slot))\n                {\n                    removed_.reset(result.slot);\n                    value_published_.set(result.slot);\n                }\n                else if (child_valid(result.slot))\n                {\n                    value_published_.set(result.slot);\n                    added_.set(result.slot);\n                }\n                (void)key_set_tracking_.record_modified(modified_time);\n                return mutation_result(result.slot, result.constructed);\n            }\n\n            [[nodiscard]] SlotTSDataMutationResult insert_key_move", "replace": "                if (slot_removed(result.slot)) { removed_.reset(result.slot); }\n                else if (child_valid(result.slot))\n                {\n                    value_published_.set(result.slot);\n                    added_.set(result.slot);\n                }\n                (void)key_set_tracking_.record_modified(modified_time);\n                return mutation_result(result.slot, result.constructed);\n            }\n\n            [[nodiscard]] SlotTSDataMutationResult insert_key_move"}]},
+    {"id": "l-insert-forgets-keyset-stamp", "expect": "C04.l", "edits": [{"file": "src/hgraph/types/metadata/ts_data_slot_ops.cpp", "find": "                (void)key_set_tracking_.record_modified(modified_time);\n                return mutation_result(result.slot, result.constructed);\n            }\n\n            [[nodiscard]] SlotTSDataMutationResult remove_key", "replace": "                return mutation_result(result.slot, result.constructed);\n            }\n\n            [[nodiscard]] SlotTSDataMutationResult remove_key"}]},
     {"id": "k-clear-reads-bound-after-unbind", "expect": "C04.k", "edits": [{"file": "src/hgraph/types/time_series/ts_output/base_view.cpp", "find": "        const TSOutputHandle previous = forwarding_target();\n        detail::unbind_target_link(data_);\n        if (evaluation_time_ != MIN_DT && previous.bound())\n        {\n            detail::mutable_target_link_storage(data_)->record_target_modified(evaluation_time_);", "replace": "        auto *link = detail::mutable_target_link_storage(data_);\n        link->unbind();\n        if (evaluation_time_ != MIN_DT && link->bound())\n        {\n            link->record_target_modified(evaluation_time_);"}]},
     {"id": "k-sampled-clear-reads-bound-late", "expect": "C04.k", "edits": [{"file": "src/hgraph/types/time_series/ts_output/base_view.cpp", "find": "        const bool was_bound = link->bound();\n        link->unbind();\n        if (was_bound) { link->record_target_modified(evaluation_time_); }", "replace": "        link->unbind();\n        const bool was_bound = link->bound();\n        if (was_bound) { link->record_target_modified(evaluation_time_); }"}]},
     {"id": "k-twin-bool-snapshot", "expect": None, "edits": [{"file": "src/hgraph/types/time_series/ts_output/base_view.cpp", "find": "        const TSOutputHandle previous = forwarding_target();\n        detail::unbind_target_link(data_);\n        if (evaluation_time_ != MIN_DT && previous.bound())", "replace": "        const bool had_target = forwarding_target().bound();\n        detail::unbind_target_link(data_);\n        if (evaluation_time_ != MIN_DT && had_target)"}]},
